@@ -13,7 +13,9 @@ Clause(name, ok) == ok \/ (Diag /\ PrintT(<<"CLAUSE", tid, pos, name>>))
 Exists(p) == fs'[p].vol # ABSENT
 \* which paths exist after the step, the dirty flag, whether the schedule is armed
 Obs(e) ==
-  /\ Clause("files", e.files = [main |-> Exists("main"), bak |-> Exists("bak"), tmp |-> Exists("tmp")])
+  \* (the temp file is never read by a load: its existence is not compared - with a symbolic link a stale one may
+  \* even sit in another directory)
+  /\ Clause("files", e.files.main = Exists("main") /\ e.files.bak = Exists("bak"))
   /\ Clause("dirty", e.dirty = dirty')
   /\ Clause("armed", e.hassched => (e.armed = (sched' = "armed")))
 StepAction(e) ==
